@@ -40,6 +40,9 @@ pub struct Gen {
     pub burst: Vec<EP>,
     /// wide types: the full-depth path of the universe (empty: none), see `base::spine`
     pub spine: Vec<EP>,
+    /// now and then replace the contents by a large part of the universe (size-dependent behaviour:
+    /// arena growth, index arithmetic, anything with a threshold on the number of entries / nodes)
+    pub flood: bool,
 }
 
 impl Gen {
@@ -66,6 +69,7 @@ impl Gen {
             extra_keys: Vec::new(),
             burst: Vec::new(),
             spine: Vec::new(),
+            flood: false,
         }
     }
 
@@ -326,6 +330,21 @@ impl Gen {
             chain.retain(|k| !m.contains(*k));
             self.rng.shuffle(&mut chain);
             self.burst = chain;
+        }
+        if self.flood && self.rng.chance(1, 90) {
+            let keep = 2 + self.rng.below(4);
+            let mut list: Vec<Item> = Vec::new();
+            for k in self.uni.clone() {
+                if self.rng.below(5) < keep {
+                    let k = self.host(k);
+                    let t = self.t();
+                    list.push((k, t));
+                }
+            }
+            self.rng.shuffle(&mut list);
+            self.phase = Phase::Shrink;
+            self.phase_left = 20 + self.rng.below(40);
+            return Op::Replace(if self.rng.chance(1, 2) { ReplaceHow::FromList(list) } else { ReplaceHow::InsertList(list) });
         }
         self.advance_phase(m);
         // weights: [insert, entry, remove, keep_tree, remove_children, retain, clear, get_mut*, mut_trav, view_mut, replace]
